@@ -59,6 +59,7 @@ def run(ctx, R, tier):
     F = ctx.facts('default')
     ungated(F, R)
     prev(F, R)
+    getters(F, R)
     finish(F, R)
     set_rule(F, R)
     set_unconditional(F, R)
@@ -102,6 +103,17 @@ def cover(F, R):
                     'Parameter %s.%s never receives its command reader: its setter command is never applied' % (adt, f),
                     detail={'field': '%s.%s' % (adt, f)}, where=F.adts[adt]['file'])
     R.floor('B.C06.cover', len(fields), 41)
+
+
+def getters(F, R):
+    """`Parameter::value()` is the current raw value and `previous_value()` the one before the last update (what the
+    in-chunk interpolation and every user of the two getters starts from)."""
+    for nm, want in (('value', '(*self).raw_value'), ('previous_value', '(*self).previous_raw_value')):
+        b = F.body(P + '::' + nm)
+        if not R.check(b is not None, 'B.C06.prev', 'anchor:' + nm, 'Parameter::%s not found' % nm):
+            continue
+        rets = [str(p.ret) for p in explore(b) if p.end == 'return']
+        R.check(rets == [want], 'B.C06.prev', 'getter:' + nm, 'Parameter::%s returns %s, not %s' % (nm, rets, want), detail={'returns': rets})
 
 
 def prev(F, R):
